@@ -289,6 +289,14 @@ func accessPath(v ssa.Value) string {
 		}
 	case *ssa.FreeVar:
 		return x.Name()
+	case *ssa.IndexAddr:
+		if k, ok := x.Index.(*ssa.Const); ok && k.Value != nil {
+			if p := accessPath(x.X); p != "" {
+				return p + "[" + k.Value.ExactString() + "]"
+			}
+		}
+	case *ssa.Extract, *ssa.Call, *ssa.Phi, *ssa.TypeAssert, *ssa.Lookup, *ssa.Next:
+		return v.Name() // an SSA value is immutable: a field/element path rooted at it denotes one location
 	}
 	return ""
 }
